@@ -14,11 +14,11 @@ open Whawty Whawty.Gen Whawty.Sasl
 
 /-- Go's `(advance, token, err)` for the model's outcome on the buffer `data`: "need more data"
     and "clean end" are both `(0, nil, nil)`; the token is the first `advance` bytes. -/
-def goView (data : Bytes) : ScanR → Nat × Option Bytes × Bool
+def goView (data : Bytes) : ScanR → Int × Option Bytes × Bool
   | .more => (0, none, false)
   | .eof => (0, none, false)
   | .err => (0, none, true)
-  | .tok adv _ => (adv, some (data.take adv), false)
+  | .tok adv _ => ((adv : Int), some (data.take adv), false)
 
 /-- The model's payload is the token without its two length bytes (`scanner.Bytes()[2:]` in
     `decodeLengthEncodedStrings`). -/
@@ -39,7 +39,24 @@ theorem scan_tok_payload (data : Bytes) (e : Bool) (adv : Nat) (p : Bytes) (h : 
         simp only [List.take_succ_cons, List.drop_succ_cons, List.drop_zero, List.length_take]
         exact ⟨trivial, by omega⟩
 
-/-- The source's split function is the model's `scan`. -/
+/-- The model's outcome on a buffer of at least two bytes, as nested conditions. -/
+theorem goView_scan (hi lo : Byte) (rest : Bytes) (e : Bool) :
+    goView (hi :: lo :: rest) (scan (hi :: lo :: rest) e) =
+      if be16val hi lo > 256 then (0, none, true)
+      else if rest.length < be16val hi lo then (if e = true then (0, none, true) else (0, none, false))
+      else (((be16val hi lo + 2 : Nat) : Int), some ((hi :: lo :: rest).take (be16val hi lo + 2)), false) := by
+  simp only [scan, maxLen]
+  by_cases h1 : be16val hi lo > 256
+  · simp [h1, goView]
+  · by_cases h2 : rest.length < be16val hi lo
+    · cases e <;> simp [h1, h2, goView]
+    · simp [h1, h2, goView]
+
+/-- The source's split function is the model's `scan`. The proof script does not follow the shape of
+    the Go function: every path of the translated body is compared with the model under the
+    conditions that lead to it (`repeat' split`, then linear arithmetic), so that a rewrite of the
+    function within the translated subset that keeps its behaviour keeps this proof (tried with
+    the maintainer-style rewrite benign/B1-4: `len(data)-2 < strlen`, no special case for empty parts). -/
 theorem scan_is_source :
     scanLengthEncodedString = some (fun data atEOF => goView data (scan data atEOF)) := by
   unfold scanLengthEncodedString
@@ -49,19 +66,19 @@ theorem scan_is_source :
   | [] => cases atEOF <;> simp [scan, goView]
   | [x] => cases atEOF <;> simp [scan, goView]
   | hi :: lo :: rest =>
-    have hb : ∀ r, be16of (hi :: lo :: r) = be16val hi lo := fun _ => rfl
-    simp only [scan, goView, slice, hb, maxLen, List.length_cons, List.drop_zero,
-      List.take_succ_cons, List.take_zero, List.drop_succ_cons]
+    have t2 : Int.toNat 2 = 2 := rfl
+    have t0 : Int.toNat 0 = 0 := rfl
+    have hb : be16of [hi, lo] = be16val hi lo := rfl
+    rw [goView_scan]
+    simp only [slice, List.length_cons, List.drop_zero, t2, t0,
+      List.take_succ_cons, List.take_zero, List.drop_succ_cons, Nat.sub_zero, hb]
     generalize be16val hi lo = n
-    have e1 : ¬ (rest.length + 1 + 1 = 0) := by omega
-    have e2 : ¬ (rest.length + 1 + 1 < 2) := by omega
-    simp only [e1, e2, decide_false, Bool.and_false, Bool.false_eq_true, if_false]
-    by_cases h1 : n > 256
-    · simp [h1]
-    · by_cases h0 : n = 0
-      · subst h0; simp
-      · by_cases h2 : rest.length < n
-        · cases atEOF <;> simp [h1, h0, h2]
-        · simp [h1, h0, h2]
+    have e3 : ((↑n : Int) + 2).toNat = n + 2 := by omega
+    simp only [e3]
+    cases atEOF <;>
+      simp only [Bool.true_and, Bool.false_and, Bool.false_eq_true, if_false, if_true, decide_eq_true_eq] <;>
+      (repeat' split) <;>
+      (first | rfl | omega | (subst_vars; simp; done) | (simp_all; done) | (simp_all; omega))
+
 
 end Whawty.Gen.Tie
